@@ -512,9 +512,136 @@ pub struct StopCase {
     pub reuse_brancher: bool,
     #[serde(default)]
     pub assumptions: Vec<Pred>,
+    /// a command-line case (the model and the other fields are placeholders then)
+    #[serde(default)]
+    pub cli: Option<CliStop>,
+}
+
+/// An optimisation run of the FlatZinc front-end which the wall-clock limit `-t` interrupts between an
+/// improvable solution and the end of the search (see `StopProp::run_cli_stop`).
+#[derive(Clone, Debug, Serialize, Deserialize)]
+pub struct CliStop {
+    /// number of holes of the pigeon-hole gadget (holes + 1 pigeons)
+    pub holes: u8,
+    pub limit_ms: u64,
+    pub all_solutions: bool,
+    pub minimise: bool,
+    /// `--optimisation-strategy linear-unsat-sat`
+    pub lus: bool,
+    pub seed: u64,
 }
 
 pub struct StopProp;
+
+impl StopProp {
+    /// The objective `obj` ranges over 0..2 and is maximised (or mirrored and minimised). Reaching the best
+    /// value switches on a pigeon-hole formula, every clause of which is weakened by a switch `s` that the
+    /// prescribed search fixes to false first: the best value is feasible (`s` = true), but the solver only
+    /// finds it after refuting the pigeon-hole formula - tens of seconds for 12-13 holes - whereas the two
+    /// worse values are found at once. A limit of a few hundred milliseconds therefore interrupts the run
+    /// while its incumbent is not optimal. The oracle does not depend on that timing: whenever the
+    /// optimality line is printed the last printed objective value must be the true optimum, and
+    /// UNSATISFIABLE must never be printed.
+    fn cli_stop_model(c: &CliStop) -> String {
+        let n = c.holes as usize;
+        let pigeons = n + 1;
+        let mut l: Vec<String> = vec!["var 0..2: obj :: output_var;".into()];
+        for i in 0..pigeons {
+            for j in 0..n {
+                l.push(format!("var bool: p_{i}_{j};"));
+            }
+        }
+        l.push("var bool: s :: output_var;".into());
+        l.push("var bool: gate;".into());
+        // gate <-> the objective has not reached its best value
+        if c.minimise {
+            l.push("constraint int_le_reif(1,obj,gate);".into());
+        } else {
+            l.push("constraint int_le_reif(obj,1,gate);".into());
+        }
+        for i in 0..pigeons {
+            let ps: Vec<String> = (0..n).map(|j| format!("p_{i}_{j}")).collect();
+            l.push(format!("constraint bool_clause([{},s,gate],[]);", ps.join(",")));
+        }
+        for j in 0..n {
+            for i in 0..pigeons {
+                for k in i + 1..pigeons {
+                    l.push(format!("constraint bool_clause([s,gate],[p_{i}_{j},p_{k}_{j}]);"));
+                }
+            }
+        }
+        let mut order: Vec<String> = vec!["s".into()];
+        for i in 0..pigeons {
+            for j in 0..n {
+                order.push(format!("p_{i}_{j}"));
+            }
+        }
+        let (sel, dir) = if c.minimise { ("indomain_max", "minimize") } else { ("indomain_min", "maximize") };
+        l.push(format!(
+            "solve :: seq_search([int_search([obj],input_order,{sel},complete), bool_search([{}],input_order,indomain_min,complete)]) {dir} obj;",
+            order.join(",")
+        ));
+        l.join("\n") + "\n"
+    }
+
+    fn run_cli_stop(c: &CliStop) -> Verdict {
+        use crate::cli::*;
+        let mut out = Outcome::default();
+        out.classes.push("cli_time_limit".into());
+        let text = Self::cli_stop_model(c);
+        let input = scratch_file("fzn");
+        std::fs::write(&input, &text).expect("write fzn");
+        let mut args: Vec<String> = vec![input.to_string_lossy().to_string(), "-t".into(), c.limit_ms.to_string(), "--random-seed".into(), c.seed.to_string()];
+        if c.all_solutions {
+            args.push("-a".into());
+        }
+        if c.lus {
+            args.push("--optimisation-strategy".into());
+            args.push("linear-unsat-sat".into());
+        }
+        let o = run_cli(&args, std::time::Duration::from_secs(60));
+        cleanup(&[&input]);
+        if o.timed_out {
+            // the process ignored its own limit for a minute: not something this oracle judges
+            out.inconclusive = true;
+            out.notes.push(format!("command-line run with -t {} still running after 60 s", c.limit_ms));
+            return Ok(out);
+        }
+        if o.status != Some(0) {
+            return Err(Failure::new("cli:rejected-or-crashed", format!("exit status {:?}; stderr {:?}", o.status, o.stderr.chars().take(400).collect::<String>())));
+        }
+        let objs: Vec<i64> = o
+            .stdout
+            .lines()
+            .filter_map(|l| l.trim().strip_prefix("obj = ").and_then(|r| r.trim_end_matches(';').trim().parse().ok()))
+            .collect();
+        let optimum: i64 = if c.minimise { 0 } else { 2 };
+        let claims_optimal = o.stdout.lines().any(|l| l.trim() == "==========");
+        let summary: String = o.stdout.lines().filter(|l| !l.starts_with("s = ")).collect::<Vec<_>>().join(" ");
+        if o.stdout.contains("=====UNSATISFIABLE=====") {
+            return Err(Failure::new("wrong:cli-unsat-because-interrupted", format!("args {:?}: UNSATISFIABLE printed for a satisfiable model; output: {summary}", &args[1..])));
+        }
+        if let Some(v) = objs.iter().find(|v| **v < 0 || **v > 2) {
+            return Err(Failure::new("wrong:cli-objective-out-of-domain", format!("objective value {v} printed; output: {summary}")));
+        }
+        if claims_optimal {
+            out.classes.push("cli:finished".into());
+            if objs.last() != Some(&optimum) {
+                return Err(Failure::new(
+                    "wrong:cli-optimal-because-interrupted",
+                    format!("args {:?}: the optimality line ========== follows the objective value {:?}, but the optimum is {optimum}; output: {summary}", &args[1..], objs.last()),
+                ));
+            }
+        } else {
+            out.classes.push("cli:interrupted".into());
+            if !objs.is_empty() || !c.all_solutions {
+                out.nontrivial = Some(hash_of(&(c.holes, c.limit_ms, c.all_solutions, c.minimise, c.lus, c.seed)));
+            }
+        }
+        out.observed = Some(json!({"objective_values_printed": objs, "optimality_line": claims_optimal}));
+        Ok(out)
+    }
+}
 
 impl StopProp {
     /// run the operation on `b` with the given termination; returns a description of the result
@@ -663,7 +790,7 @@ impl Property for StopProp {
         "fault_enumeration"
     }
     fn rule(&self) -> String {
-        "generated model x configuration x operation {satisfy, iterate, optimise SAT-UNSAT, optimise UNSAT-SAT}; an uninterrupted run records the number N of polls of the termination condition; then the harness-owned termination fires from poll k on, for EVERY k in 0..=N when N <= 64 (a stratified sample of 64 otherwise), each on a fresh solver: the result must be Unknown / the best solution so far (valid) / a correct definitive answer, and asking the same solver again without interruption (fresh or reused brancher) must give the correct definitive answer for the accumulated model. evaluations counts (case, k) pairs. Non-trivial: 0 < k < N with N >= 4; distinct by hash of (model, operation, k).".into()
+        "generated model x configuration x operation {satisfy, iterate, optimise SAT-UNSAT, optimise UNSAT-SAT}; an uninterrupted run records the number N of polls of the termination condition; then the harness-owned termination fires from poll k on, for EVERY k in 0..=N when N <= 64 (a stratified sample of 64 otherwise), each on a fresh solver: the result must be Unknown / the best solution so far (valid) / a correct definitive answer, and asking the same solver again without interruption (fresh or reused brancher) must give the correct definitive answer for the accumulated model. evaluations counts (case, k) pairs. Non-trivial: 0 < k < N with N >= 4; distinct by hash of (model, operation, k). In addition 32 (thorough: 160) fixed command-line cases: a FlatZinc optimisation model whose best objective value is only reached after refuting a 12-13-hole pigeon-hole formula (tens of seconds) while two worse values are found at once, run through the real binary with a wall-clock limit -t of 120-500 ms (with/without -a, maximise/minimise, both optimisation strategies): whenever the optimality line is printed the last printed objective value must be the true optimum, and UNSATISFIABLE is never printed (an oracle which holds whatever the timing).".into()
     }
     fn assumptions(&self) -> Vec<String> {
         vec!["interruption is modelled at the poll points of TerminationCondition::should_stop (the only place where the solver looks at it)".into()]
@@ -686,7 +813,7 @@ impl Property for StopProp {
                 }
                 let objective = build_objective(&model, &ex.1);
                 let assumptions = if path == 2 { build_assumptions(&model, &ex.3) } else { vec![] };
-                StopCase { model, cfg, path, objective, maximise: ex.2, reuse_brancher, assumptions }
+                StopCase { model, cfg, path, objective, maximise: ex.2, reuse_brancher, assumptions, cli: None }
             })
             .boxed()
     }
@@ -696,10 +823,40 @@ impl Property for StopProp {
             Tier::Thorough => 400_000,
         }
     }
+    /// command-line runs interrupted by the wall-clock limit (the grid is a pure function of the seed)
+    fn fixed_cases(&self, tier: Tier) -> Vec<StopCase> {
+        let n = if tier == Tier::Quick { 32u64 } else { 160 };
+        let seed: u64 = std::env::var("VERIF_SEED").ok().and_then(|s| s.parse().ok()).unwrap_or(1);
+        (0..n)
+            .map(|i| {
+                let h = (seed.wrapping_mul(0x9E37_79B9_7F4A_7C15) ^ i.wrapping_mul(0xBF58_476D_1CE4_E5B9)).rotate_left(17).wrapping_mul(0x94D0_49BB_1331_11EB);
+                StopCase {
+                    model: Model { vars: vec![VarDecl::Bool], cons: vec![] },
+                    cfg: Config::default_cfg(),
+                    path: 3,
+                    objective: Term::plain(0),
+                    maximise: true,
+                    reuse_brancher: false,
+                    assumptions: vec![],
+                    cli: Some(CliStop {
+                        holes: 12 + (i % 2) as u8,
+                        limit_ms: 120 + (h >> 8) % 380,
+                        all_solutions: i % 4 < 3,
+                        minimise: (i / 2) % 2 == 1,
+                        lus: i % 8 == 7,
+                        seed: (h >> 40) % 1000,
+                    }),
+                }
+            })
+            .collect()
+    }
     fn floors(&self, _tier: Tier) -> Vec<(&'static str, f64)> {
         vec![("N>=4", 0.22), ("exhaustive_k", 0.5)]
     }
     fn run(&self, case: &StopCase) -> Verdict {
+        if let Some(c) = &case.cli {
+            return Self::run_cli_stop(c);
+        }
         let m = &case.model;
         let mut out = Outcome::default();
         model_classes(m, &mut out.classes);
